@@ -46,6 +46,8 @@ pub struct Cluster {
     client_conns: HashMap<(usize, usize), usize>,
     pub adversary: Option<Adversary>,
     pub hostile_conns: HashMap<(usize, usize, u8), usize>,
+    /// A few recent frames per service (material for mutated hostile frames).
+    pub recent_frames: HashMap<u8, Vec<Vec<u8>>>,
 }
 
 impl Cluster {
@@ -98,7 +100,7 @@ impl Cluster {
             Some(Adversary::new(sc, net.clone(), members, names.clone()))
         };
 
-        Cluster { sc: sc.clone(), net, obs, names, dir: dir.to_string(), client_conns: HashMap::new(), adversary, hostile_conns: HashMap::new() }
+        Cluster { sc: sc.clone(), net, obs, names, dir: dir.to_string(), client_conns: HashMap::new(), adversary, hostile_conns: HashMap::new(), recent_frames: HashMap::new() }
     }
 
     fn write_config(&self, i: usize) -> (String, String, String, String) {
@@ -283,6 +285,21 @@ impl Cluster {
                 }
                 let new_rounds = std::mem::take(&mut o.new_rounds);
                 drop(o);
+                if self.sc.profile == "C15" {
+                    for ev in &tap {
+                        if let crate::net::TapKind::Frame { phase: crate::net::Phase::Written, data, .. } = &ev.kind {
+                            if ev.to_listener && ev.src() < self.sc.n && data.len() < 4096 {
+                                let v = self.recent_frames.entry(ev.svc).or_default();
+                                if v.len() < 24 {
+                                    v.push(data.to_vec());
+                                } else {
+                                    let i = (ev.seq % 24) as usize;
+                                    v[i] = data.to_vec();
+                                }
+                            }
+                        }
+                    }
+                }
                 self.arm_mutes(&new_rounds);
                 if let Some(a) = self.adversary.as_mut() {
                     for ev in &tap {
